@@ -184,6 +184,10 @@ impl PropCheck for C17 {
     fn case_from_json(&self, v: &Value) -> Result<Case, String> {
         serde_json::from_value(v["case"].clone()).map_err(|e| e.to_string())
     }
+
+    fn owns_case(&self, v: &Value) -> bool {
+        v["raw_stage"].as_bool() != Some(true)
+    }
 }
 
 /// C19, model-free stage: the printed sheet is damaged (cut off at a random character, so that blocks, functions and
@@ -267,6 +271,10 @@ impl PropCheck for C19Raw {
 
     fn case_from_json(&self, v: &Value) -> Result<RawCase, String> {
         serde_json::from_value(v["case"].clone()).map_err(|e| e.to_string())
+    }
+
+    fn owns_case(&self, v: &Value) -> bool {
+        v["raw_stage"].as_bool() == Some(true)
     }
 }
 
@@ -507,6 +515,7 @@ pub fn run(prop: &'static str, tier: Tier, seed: u64, findings: &Findings) -> i3
         rcfg.hosts = true;
         rcfg.imports = true;
         let raw = C19Raw { cfg: rcfg };
+        report.merge(super::run_regress(&raw, &cfg, findings));
         report.merge(engine::run_generated(&raw, &cfg, tier.pick(60_000, 2_000_000), 16, 16, findings, 1));
         assumptions.push("model-free stage: generated sheets cut off at a random character and / or with a byte order mark in front; for every source-map entry of both outputs the first token of the source at the source position corresponds to the first token of the output at the generated column (equal token; closing bracket -> its opening bracket or the same bracket; rpx value / prefixed class -> the original; tokens synthesised by the @import / :host rewrites -> the `@import` keyword / the `:`)".into());
         // coverage-guided stage on arbitrary stylesheets: source positions inside the source, destination order
